@@ -9,6 +9,7 @@ import (
 	"io"
 	"log"
 	"math"
+	"math/big"
 	"os"
 	"os/exec"
 	"sort"
@@ -27,6 +28,7 @@ type sPoint struct {
 	Type   string `json:"type"`
 	Key    string `json:"key"`
 	Time   int64  `json:"time"`  // ns since epoch
+	Far    int64  `json:"far,omitempty"` // seconds added to Time: instants that do not fit 64-bit nanoseconds
 	VBits  uint64 `json:"vbits"` // float64 bit pattern
 	Text   string `json:"text"`
 	Data   []byte `json:"data"`
@@ -35,17 +37,32 @@ type sPoint struct {
 }
 
 func (p sPoint) toData() data.Point {
-	return data.Point{Type: p.Type, Key: p.Key, Time: time.Unix(0, p.Time), Value: math.Float64frombits(p.VBits),
+	return data.Point{Type: p.Type, Key: p.Key, Time: time.Unix(p.Far, p.Time), Value: math.Float64frombits(p.VBits),
 		Text: p.Text, Data: p.Data, Tombstone: p.Tomb, Origin: p.Origin}
 }
 
 func sPointFrom(p data.Point) sPoint {
-	return sPoint{Type: p.Type, Key: p.Key, Time: p.Time.UnixNano(), VBits: math.Float64bits(p.Value),
+	q := sPoint{Type: p.Type, Key: p.Key, Time: p.Time.UnixNano(), VBits: math.Float64bits(p.Value),
 		Text: p.Text, Data: p.Data, Tomb: p.Tombstone, Origin: p.Origin}
+	if p.Time.Before(time.Unix(0, math.MinInt64)) || p.Time.After(time.Unix(0, math.MaxInt64)) {
+		// UnixNano is not defined there
+		q.Far, q.Time = p.Time.Unix(), int64(p.Time.Nanosecond())
+	}
+	return q
+}
+
+// timeVal is the instant in nanoseconds since the epoch, of any size
+func (p sPoint) timeVal() string {
+	if p.Far == 0 {
+		return vZ(p.Time)
+	}
+	t := new(big.Int).Mul(big.NewInt(p.Far), big.NewInt(1000000000))
+	t.Add(t, big.NewInt(p.Time))
+	return "z" + t.String()
 }
 
 func (p sPoint) val() string {
-	return vL(vS(p.Type), vS(p.Key), vZ(p.Time), vN(p.VBits), vS(p.Text), vB(p.Data), vZ(int64(p.Tomb)), vS(p.Origin))
+	return vL(vS(p.Type), vS(p.Key), p.timeVal(), vN(p.VBits), vS(p.Text), vB(p.Data), vZ(int64(p.Tomb)), vS(p.Origin))
 }
 
 func sPointsVal(ps []sPoint) string {
@@ -102,6 +119,8 @@ type sScript struct {
 	Crashed bool    `json:"crashed,omitempty"`
 	Verify  int     `json:"verify_mismatches"`
 	Key     string  `json:"key"`
+	// request timeout in milliseconds (0 = 4 s); raised when a script is run again after an unanswered request
+	ReqTimeoutMs int `json:"req_timeout_ms,omitempty"`
 }
 
 func (s *sScript) val() string {
@@ -232,7 +251,11 @@ func storeRunScript(s *sScript) error {
 		if op.Kind == "ep" {
 			subject += "." + op.Parent
 		}
-		msg, err := nc.Request(subject, payload, 4*time.Second)
+		reqTimeout := 4 * time.Second
+		if s.ReqTimeoutMs > 0 {
+			reqTimeout = time.Duration(s.ReqTimeoutMs) * time.Millisecond
+		}
+		msg, err := nc.Request(subject, payload, reqTimeout)
 		switch {
 		case err != nil:
 			step.Reply = 2
@@ -405,6 +428,18 @@ func (w *storeWorker) run(s *sScript, timeout time.Duration) (*sScript, bool) {
 	}
 }
 
+func storeUnanswered(s *sScript) bool {
+	if s == nil || s.Crashed {
+		return false
+	}
+	for _, t := range s.Steps {
+		if t.Reply == 2 {
+			return true
+		}
+	}
+	return s.Verify == 1000
+}
+
 // storeRunAll executes the scripts on a pool of worker processes, preserving order
 func storeRunAll(scripts []*sScript, workers int) []*sScript {
 	out := make([]*sScript, len(scripts))
@@ -444,6 +479,27 @@ func storeRunAll(scripts []*sScript, workers int) []*sScript {
 						w.kill()
 						w = nil
 					}
+				}
+				// "always answered" carries no deadline: a request left unanswered within the 4 s limit on a loaded
+				// machine is tried again on a fresh instance with a longer limit (twice); a request that wedges the
+				// store stays unanswered every time
+				for again := 0; ok && again < 2 && storeUnanswered(r); again++ {
+					c := *scripts[i]
+					c.ReqTimeoutMs = 15000
+					if w == nil {
+						var err error
+						if w, err = newStoreWorker(); err != nil {
+							break
+						}
+					}
+					r2, ok2 := w.run(&c, 240*time.Second)
+					if !ok2 {
+						w.kill()
+						w = nil
+						break
+					}
+					r2.ReqTimeoutMs = 0
+					r = r2
 				}
 				if !ok {
 					// reproducibly kills or wedges the instance
